@@ -52,6 +52,7 @@ from . import _prepare_ast_out as out
 from cohdl._core._boolean import _Boolean, _BooleanLiteral
 from cohdl._core._boolean import true as cohdl_true
 from cohdl._core._array import Array
+from cohdl._core._bit import Bit
 from cohdl._core._bit_vector import BitVector
 
 from cohdl._core._collect_ast_and_scope import (
@@ -462,6 +463,15 @@ class PrepareAst:
                     result.assigned_value, _type_qualifier.TypeQualifier
                 ) or is_primitive(result.assigned_value):
                     assigned = result.assigned_value
+
+                    # the initial value of a local object is checked like every other
+                    # assignment (trial assignment to a placeholder of the declared type)
+                    declared = _type_qualifier.TypeQualifier.decay(result.new_obj)
+
+                    if isinstance(declared, (Bit, BitVector)):
+                        declared.copy()._assign(
+                            _type_qualifier.TypeQualifier.decay(assigned)
+                        )
                 elif isinstance(result.assigned_value, (list, tuple)) and isinstance(
                     _type_qualifier.TypeQualifier.decay(result.new_obj), Array
                 ):
